@@ -175,13 +175,55 @@ theorem C19_process_state_left_as_found (env : Env M P) (md : Mode) (g : G) (cfg
     simp only [seqLeaves, startG, hr s List.mem_cons_self]
     exact ih _ _ (fun t ht => hr t (List.mem_cons_of_mem _ ht))
 
-/-! ### the hypothesis is needed -/
+/-! ### what the framework itself leaves in the process -/
 
 abbrev Manager.PGStrat := GStrat Nat PM Nat Nat Nat (Nat × Bool) ((PM × PData) × Nat)
 /-- changes the process state (sets the decimal precision and does not set it back; publishes into a class-level dict) -/
 def Manager.gWriter : PGStrat := probeGStrat eff0 false 1
 /-- reads the process state and changes nothing -/
 def Manager.gReader : PGStrat := probeGStrat eff0 false 0
+
+/-- what the source says on this run: the `Snapshot` class holds no object shared by its instances (`market_status` is
+    `field(default_factory=MarketDict)`), so publishing the statuses of a bar writes into that snapshot only -/
+theorem C19_process_state_flags_pinned : Gen.snapshotHoldsNoSharedObject = true := by decide
+
+/-- the Actuator, as the source is now, adds no write of its own: strategies that restore the process state make backtests
+    that restore it, whatever a bar publishes -/
+theorem C19_actuator_leaves_process_state (publish : G → M → Data C V N P → G) (strats : List (GStrat G M C V N P O))
+    (hr : GRestores strats) : GRestores (strats.map (GStrat.underActuator Gen.snapshotHoldsNoSharedObject publish)) := by
+  intro s hs g m d
+  obtain ⟨t, ht, rfl⟩ := List.mem_map.mp hs
+  simp only [GStrat.underActuator, C19_process_state_flags_pinned, if_true]
+  exact hr t ht g m d
+
+/-- **the property for strategies that leave the process state alone, run by the Actuator as it is**: the hypothesis is
+    on the strategies only -/
+theorem C19_manager_isolated_for_restoring_strategies (env : Env M P) (threads cpu : Nat) (windows ctxSet : Bool) (assign : Nat → Nat)
+    (finished : Nat → Bool) (g : G) (publish : G → M → Data C V N P → G) (cfg : M) (d : Data C V N P)
+    (strats : List (GStrat G M C V N P O)) (hr : GRestores strats) (res : List (Option O))
+    (h : managerRunG env (Mode.current true) FailMode.current threads cpu windows ctxSet assign finished g g (some cfg) (some d)
+      (strats.map (GStrat.underActuator Gen.snapshotHoldsNoSharedObject publish)) = .done res) :
+    res = specG g cfg d strats := by
+  have := C19_manager_isolated env threads cpu windows ctxSet assign finished g g cfg d _
+    (Or.inr ⟨C19_actuator_leaves_process_state publish strats hr, rfl⟩) res h
+  simpa [specG, GStrat.underActuator, List.map_map, Function.comp_def] using this
+
+/-- with a class-level `Snapshot.market_status` (the code before the repair a78c4ba) the Actuator itself writes the
+    process state on every bar: two strategies that touch nothing — the second one looks at what the `Snapshot` class holds
+    when it starts and finds the statuses the first backtest published last -/
+theorem C19_fails_when_snapshot_status_is_class_level :
+    GRestores [gReader, gReader] ∧
+    managerRunG (probeEnv false false) (Mode.current true) FailMode.current 1 8 false false id (fun _ => true) 0 0
+        (some (0, 0, true)) (some pd0) ([gReader, gReader].map (GStrat.underActuator false (fun g _ _ => g + 1)))
+      ≠ .done (specG 0 (0, 0, true) pd0 [gReader, gReader]) := by
+  constructor
+  · intro s hs g m d
+    simp only [List.mem_cons, List.not_mem_nil, or_false, or_self] at hs
+    subst hs
+    simp [gReader, probeGStrat]
+  · decide
+
+/-! ### the hypothesis is needed -/
 
 /-- **a backtest that writes process-wide state changes a later one in the same process** — with every copy the code
     makes today: on the in-process path the reader run after the writer finds the changed state; on the forked path when
